@@ -229,6 +229,12 @@ fn lang_reduce_only() -> Lang {
     // four function words; the longest of them ("außer") holds a letter that the table lengthens, so its normalised
     // spelling is longer than every spelling the language was given
     use lucid_suggest_core::lang::PartOfSpeech;
+    // (two of them are listed twice, first as nouns: the later listing counts - a table may say "over" the noun and
+    // "over" the preposition - and an accented noun whose reduced spelling is a function word listed after it)
+    lang.add_pos("zu", PartOfSpeech::Noun);
+    lang.add_pos("av", PartOfSpeech::Noun);
+    lang.add_pos("pé", PartOfSpeech::Noun);
+    lang.add_pos("pe", PartOfSpeech::Conjunction);
     lang.add_pos("zu", PartOfSpeech::Preposition);
     lang.add_pos("av", PartOfSpeech::Preposition);
     lang.add_pos("på", PartOfSpeech::Preposition);
